@@ -1,0 +1,33 @@
+// Copyright ©2012 The bíogo Authors. All rights reserved.
+// Use of this source code is governed by a BSD-style
+// license that can be found in the LICENSE file.
+
+//go:build verif
+// +build verif
+
+package bgzf
+
+import (
+	"bytes"
+	"compress/gzip"
+)
+
+// NewVerifBlock returns a Block with the given base, used flag and a BGZF
+// size field such that NextBase returns next. Block has unexported methods,
+// so values for exercising a Cache cannot be made outside the package.
+func NewVerifBlock(base int64, used bool, next int64) Block {
+	b := &block{}
+	b.setBase(base)
+	size := next - base - 1
+	if size < 0 {
+		size = 0
+	}
+	b.h = gzip.Header{Extra: []byte{'B', 'C', 2, 0, byte(size), byte(size >> 8)}}
+	b.buf = bytes.NewReader(b.data[:0])
+	b.used = used
+	return b
+}
+
+// VerifSetBase overwrites the base of a Block made by NewVerifBlock, as a
+// Reader does when it recycles a Block for another member.
+func VerifSetBase(b Block, base int64) { b.setBase(base) }
